@@ -285,11 +285,34 @@ def apply_op(fam, m, op, state):
     elif op == "pred_fill":
         with S.observation_nan_policy("fill"):
             return predict(m, f.xs)
+    elif op == "pred_jitter":
+        # a prediction under other numerical settings (jitter contexts); later predictions run under the defaults again
+        with S.variational_cholesky_jitter(float_value=1e-2, double_value=1e-2), S.cholesky_jitter(float_value=1e-3, double_value=1e-3):
+            return predict(m, f.xs)
+    elif op in ("train_step_frozen", "train_step_jitter"):
+        # (frozen) fine-tuning with part of the parameters frozen: the variational parameters and inducing points of a
+        # variational model, the kernel of an exact one. (jitter) the step is taken under other jitter settings.
+        frozen = []
+        if op == "train_step_frozen":
+            mod = m.variational_strategy if not exact else m.covar_module
+            frozen = [p_ for p_ in mod.parameters() if p_.requires_grad]
+            if not exact:
+                frozen = [p_ for n_, p_ in mod.named_parameters() if p_.requires_grad and ("inducing_points" in n_ or "variational" in n_.split(".")[-1] or "_variational_distribution" in n_)]
+            for p_ in frozen:
+                p_.requires_grad_(False)
+        try:
+            import contextlib
+
+            with (contextlib.ExitStack() if op == "train_step_frozen" else S.variational_cholesky_jitter(float_value=1e-2, double_value=1e-2)):
+                apply_op(fam, m, "train_step", state)
+        finally:
+            for p_ in frozen:
+                p_.requires_grad_(True)
     elif op == "train_step":
         m.train()
         lik = m.likelihood
         lik.train()
-        params = list({id(p): p for p in list(m.parameters()) + list(lik.parameters())}.values())
+        params = [p_ for p_ in {id(p): p for p in list(m.parameters()) + list(lik.parameters())}.values() if p_.requires_grad]
         opt = torch.optim.SGD(params, lr=0.05)
         if exact:
             mll = gpytorch.mlls.ExactMarginalLogLikelihood(lik, m)
